@@ -906,6 +906,9 @@ class SgzReader(object):
         -------
         header_array : numpy.ndarray of int32, shape (tracecount)
         """
+        if not self.structured and self.include_padding is False:
+            # Header arrays were last loaded without padding (e.g. by gen_trace_header), start afresh
+            self.clear_variant_headers()
         self.read_variant_headers(include_padding=True, tracefields=[segyio.tracefield.TraceField(tracefield)])
         return self.variant_headers[tracefield]
 
@@ -954,6 +957,9 @@ class SgzReader(object):
         for k, v in header.items():
             if isinstance(v, FileOffset):
                 if load_all_headers or not self.structured:
+                    if not self.structured and self.include_padding is True:
+                        # Header arrays were last loaded with padding (e.g. by get_tracefield_values), start afresh
+                        self.clear_variant_headers()
                     self.read_variant_headers()
                     header[k] = self.variant_headers[k][index]
                 else:
